@@ -86,7 +86,7 @@ type Scenario struct {
 	DisableCheckpoints  bool           `json:"disable_checkpoints,omitempty"`
 	CheckpointHeights   []int32        `json:"checkpoint_heights"`
 	HonestLen           int            `json:"honest_len"`
-	InitialStore        string         `json:"initial_store"` // genesis | prefix | stale-fork | lighter-fork
+	InitialStore        string         `json:"initial_store"` // genesis | prefix | stale-fork | lighter-fork | tall-stale-fork
 	PrefixLen           int            `json:"prefix_len,omitempty"`
 	Nodes               []NodeSpec     `json:"nodes"`
 	Announce            []AnnounceSpec `json:"announce,omitempty"`
@@ -514,6 +514,22 @@ func Execute(s *Scenario, dir string) (res *Result) {
 		}
 		if s.InitialStore == "stale-fork" && s.PrefixLen < len(x.w.Honest) {
 			st.Add(x.w.Honest[s.PrefixLen])
+		}
+	}
+	if s.InitialStore == "tall-stale-fork" {
+		// the honest chain up to PrefixLen, and a stale fork off PrefixLen-2 made of many light blocks that reaches two blocks
+		// ABOVE the honest peer's tip: the tallest stored header is not on the longest chain
+		for i := 0; i < s.PrefixLen && i < len(x.w.Honest); i++ {
+			st.Add(x.w.Honest[i])
+		}
+		p := genesis
+		if s.PrefixLen > 2 {
+			p = x.w.Honest[s.PrefixLen-3].HashOf()
+		}
+		for i := 0; i < len(x.w.Honest)-s.PrefixLen+4; i++ {
+			h := x.w.mine(p, gen.BitsLight, x.w.now-400+uint32(i))
+			st.Add(h)
+			p = h.HashOf()
 		}
 	}
 	x.count("initial_store_headers", int64(st.Svc.Headers.CountHeaders()))
